@@ -147,9 +147,20 @@ Definition check_selected (Sc : schema) (R : request_doc) (opname : name) (raw :
        variable without value in an unvalidated document; an explicit null for a
        nullable variable with a default in a validated one).  The executor model —
        error for the directive, selection left out, once per cache miss — is compared *)
+    (* ... and when the document is fine apart from that ([doc_ok_nodirs]) the DATA is still the
+       reference's (C01_exec_data_eq_nodirs): judged by the oracle *)
+    let data_bad :=
+      if doc_ok_nodirs Sc D E fuel fuel then
+        match obs with
+        | ObsDone d _ => negb (data_agrees (data (exec_spec Sc D E fuel W)) d)
+        | _ => true
+        end
+      else false in
+    if data_bad then v_oracle_fail "data-differs-from-reference-with-unevaluable-directive" []
+    else
     match model with
     | OutOfFuel => v_bad "out-of-fuel"
-    | m => if agrees m obs then v_ok ["directive-not-evaluable"]
+    | m => if agrees m obs then v_ok ("directive-not-evaluable" :: if doc_ok_nodirs Sc D E fuel fuel then ["doc-ok-nodirs"] else [])
            else v_mismatch "response-directive-not-evaluable" [tag "model" [of_run m]]
     end
   else if negb (doc_ok Sc D E fuel fuel) then
